@@ -114,6 +114,10 @@ class GotranPythonCodePrinter(PythonCodePrinter):
 
         return value
 
+    def _print_Not(self, expr):
+        # Python's `not` works neither element-wise on arrays nor on traced jax values
+        return f"numpy.logical_not({self._print(expr.args[0])})"
+
     # def _print_Equality(self, expr):
     #     lhs, rhs = expr.args
     #     return f"numpy.isclose({self._print(lhs)}, {self._print(rhs)})"
